@@ -20,7 +20,7 @@
 #endif
 
 #define MAXV 256
-#define MAXC 128
+#define MAXC 320
 #define MAXG 16
 #define MAXS 256
 #define MAXR 64
